@@ -233,7 +233,7 @@ func init() {
 		Run:         func(c *eng.Ctx) { ruleForgetGuards(c); ruleRemoveReport(c) },
 		Controls: []Control{
 			{Name: "failed-removal-recorded-without-lock", File: "cmd/restic/cmd_forget.go",
-				Old: "					failedSnIDsLock.Lock()\n					failedSnIDs.Insert(id)\n					failedSnIDsLock.Unlock()\n", New: "					failedSnIDs.Insert(id)\n", Rule: "remove-report"},
+				Old: "					failedSnIDsLock.Lock()\n					failedSnIDs.Insert(id)\n					failedSnIDsLock.Unlock()\n", New: "					failedSnIDs.Insert(id)\n					_ = &failedSnIDsLock\n", Rule: "remove-report"},
 			{Name: "prune-although-removals-failed", File: "cmd/restic/cmd_forget.go",
 				Old: "	if len(failedSnIDs) > 0 {\n		return ErrFailedToRemoveOneOrMoreSnapshots\n	}\n\n	if len(removeSnIDs) > 0 && opts.Prune {", New: "	if len(removeSnIDs) > 0 && opts.Prune {", Rule: "remove-report"},
 			{Name: "remove-last-snapshot-of-group", File: "cmd/restic/cmd_forget.go",
